@@ -3,6 +3,7 @@ package sym
 import (
 	"fmt"
 	"math"
+	"sync/atomic"
 	"go/types"
 	"sort"
 	"strings"
@@ -28,6 +29,8 @@ func constStr(v Value, what string) string {
 }
 
 func (e *Engine) symVar(label string, so term.Sort) *term.Term {
+	e.mu.Lock()
+	defer e.mu.Unlock()
 	if v, ok := e.symVars[label]; ok {
 		if v.Sort != so {
 			abort("INTERNAL", "vrt label %q used with two sorts", label)
@@ -36,7 +39,7 @@ func (e *Engine) symVar(label string, so term.Sort) *term.Term {
 	}
 	v := term.Var("in!"+label, so)
 	e.symVars[label] = v
-	e.symOrder = append(e.symOrder, label)
+	*e.symOrd = append(*e.symOrd, label)
 	return v
 }
 
@@ -67,7 +70,7 @@ func registerIntrinsics(e *Engine) {
 		return v
 	}
 	I[vrtPath+".Assume"] = func(e *Engine, st *State, th *Thread, fn *ssa.Function, a []Value, in *ssa.Call) Value {
-		e.Assumes++
+		atomic.AddInt64(e.assumes, 1)
 		e.assumeIn(st, a[0].(*term.Term))
 		return nil
 	}
@@ -503,6 +506,11 @@ func (e *Engine) assertIn(st *State, c *term.Term, label string, in *ssa.Call) {
 
 // report decides whether the violation's condition is satisfiable and records it with a model.
 func (e *Engine) report(st *State, v *Violation) {
+	defer e.lockSolver()() // the whole check + model-reading sequence is one solver session
+	e.mu.Lock()
+	seenFn := func(k string) bool { return e.violSeen[k] }
+	e.mu.Unlock()
+	_ = seenFn
 	key := v.Kind + "|" + v.Label
 	if len(v.Blocked) > 0 {
 		b := append([]string(nil), v.Blocked...)
@@ -515,7 +523,10 @@ func (e *Engine) report(st *State, v *Violation) {
 			key += "|" + tg.Name + "=" + t.String()
 		}
 	}
-	if e.violSeen[key] && !e.ReportAll {
+	e.mu.Lock()
+	seen := e.violSeen[key]
+	e.mu.Unlock()
+	if seen && !e.ReportAll {
 		// already have a counterexample for this label; still must know if this one is feasible? no: one is enough
 		return
 	}
@@ -525,12 +536,20 @@ func (e *Engine) report(st *State, v *Violation) {
 		return
 	}
 	if r == 0 {
-		e.Inconclusive = append(e.Inconclusive, fmt.Sprintf("solver could not decide %s %q: %s", v.Kind, v.Label, e.Solver.LastErr))
+		e.inconclusive(fmt.Sprintf("solver could not decide %s %q: %s", v.Kind, v.Label, e.Solver.LastErr))
+		return
+	}
+	e.mu.Lock()
+	if e.violSeen[key] && !e.ReportAll {
+		e.mu.Unlock()
 		return
 	}
 	e.violSeen[key] = true
+	e.mu.Unlock()
 	e.fillModel(st, v)
-	e.Violations = append(e.Violations, v)
+	e.mu.Lock()
+	*e.viol = append(*e.viol, v)
+	e.mu.Unlock()
 	if e.OnViolation != nil {
 		e.OnViolation(v)
 	}
@@ -539,18 +558,22 @@ func (e *Engine) report(st *State, v *Violation) {
 // fillModel reads the values of all harness inputs and the schedule from the solver's current model.
 func (e *Engine) fillModel(st *State, v *Violation) {
 	var vars []*term.Term
-	labels := append([]string(nil), e.symOrder...)
+	e.mu.Lock()
+	labels := append([]string(nil), (*e.symOrd)...)
 	sort.Strings(labels)
+	symv := map[string]*term.Term{}
 	for _, l := range labels {
 		vars = append(vars, e.symVars[l])
+		symv[l] = e.symVars[l]
 	}
+	e.mu.Unlock()
 	m := e.model(vars)
 	v.Model = map[string]string{}
 	v.ModelTyped = map[string]interface{}{}
 	for _, l := range labels {
-		if m != nil && m[e.symVars[l]] != nil {
-			v.Model[l] = m[e.symVars[l]].String()
-			v.ModelTyped[l] = typedConst(m[e.symVars[l]])
+		if m != nil && m[symv[l]] != nil {
+			v.Model[l] = m[symv[l]].String()
+			v.ModelTyped[l] = typedConst(m[symv[l]])
 		}
 	}
 	v.Tags = map[string]string{}
@@ -622,16 +645,24 @@ func (e *Engine) noteWitness(st *State) {
 		return
 	}
 	e.Stats.Completed++
-	if e.Witness != nil || !e.WitnessWanted {
+	e.mu.Lock()
+	have := *e.witness != nil
+	e.mu.Unlock()
+	if have || !e.WitnessWanted {
 		return
 	}
+	defer e.lockSolver()()
 	e.predefine(st)
 	if e.checkModel(st.PC) != 1 {
 		return
 	}
 	w := &Violation{Kind: "witness", Label: "reachability witness", Cond: st.PC}
 	e.fillModel(st, w)
-	e.Witness = w
+	e.mu.Lock()
+	if *e.witness == nil {
+		*e.witness = w
+	}
+	e.mu.Unlock()
 }
 
 func typedConst(t *term.Term) interface{} {
